@@ -541,8 +541,11 @@ impl NewCase {
                     // A qualifying value was delivered before any failure: the command must
                     // produce a phrase. Which phrase is judged by the provenance, validity and
                     // prefix clauses above (any delivered qualifying value satisfies the
-                    // statements; the first one is what the present code returns).
-                    if printed.is_none() {
+                    // statements; the first one is what the present code returns). If the source
+                    // failed anywhere in the run — an implementation that draws candidates ahead of
+                    // checking them meets a failure that lies behind the match — failing is what C12
+                    // asks for, so only failure-free runs are held to "must produce a phrase".
+                    if printed.is_none() && fail_events.is_empty() {
                         let (prop, clause) = if vanity {
                             ("C18", "refused-valid-search")
                         } else {
@@ -1438,7 +1441,16 @@ pub fn mix_case(rng: &mut Rng, digits: &str, mode: u64) -> String {
 
 pub fn gen_sched(rng: &mut Rng, workers: usize, plan_len: usize) -> SchedSpec {
     let horizon = (8 * (workers + plan_len) + 16) as u32;
-    match rng.weighted(&[4, 3, 3]) {
+    match rng.weighted(&[4, 3, 3, 4]) {
+        3 => SchedSpec {
+            // random walk plus up to `param` long preemptions of a task that is about to
+            // publish a result (channel send)
+            policy: "stall".into(),
+            seed: rng.next_u64(),
+            param: rng.range(1, 3) as u32,
+            horizon,
+            trace: vec![],
+        },
         0 => SchedSpec {
             policy: "random".into(),
             seed: rng.next_u64(),
